@@ -2,6 +2,6 @@ SPECIFICATION Spec
 CONSTANT Enq = {"e1","e2"}
 CONSTANT Wrk = {"w1","w2"}
 CONSTANT NTasks <- NT
-CONSTANT UNIQUE_BUSY = TRUE
+CONSTANT UNIQUE_BUSY = FALSE
 INVARIANT NoLostTask
 CHECK_DEADLOCK FALSE
